@@ -25,9 +25,9 @@ def run(tier, replay):
         # chunks of 256 blocks (4 KiB) and hash windows of 16 KiB: per-chunk arithmetic (counter advanced by a whole refill,
         # offsets beyond one byte) behaves differently from the 2-block chunks above; streams re-used for a later chunk
         exe256 = c01.e2e_exe(256, 256)
-        mid = [(1, 2 * 4096 + 100), (2, 4 * 4096 + 5)] if tier == "quick" else [(1, 2 * 4096 + 100), (2, 4 * 4096 + 5), (3, 6 * 4096), (4, 5 * 4096 - 1)]
-        for T, n in mid:
-            jobs.append((exe256, ["rt", T, n, n, 1, "all"]))
+        mid = [(1, 2 * 4096 + 100, "all"), (2, 4 * 4096 + 5, "all")] if tier == "quick" else [(1, 2 * 4096 + 100, "all"), (2, 4 * 4096 + 5, "all"), (3, 6 * 4096, "rot"), (4, 5 * 4096 - 1, "rot")]
+        for T, n, how in mid:
+            jobs.append((exe256, ["rt", T, n, n, 1, how]))
         jobs += [(exe, ["ivclass", T]) for T in (1, 2)]      # seeds whose first IV ends in F9..FE / FF / FFFF (counter carries in the first blocks of every stream)
         with cf.ThreadPoolExecutor(8) as ex:
             parts = list(ex.map(lambda j: wv.record(res, PID + "/j%d" % j[0], [j[1]]), enumerate(jobs)))
@@ -35,7 +35,7 @@ def run(tier, replay):
         for p in parts:
             for e in p:
                 e["id"] = len(events); events.append(e)
-    bad, st = wv.validate_trace("WencryTrace", events, name=PID + "/tlc", env={"FULL": "1"}, shards=14)
+    bad, st = wv.validate_trace("WencryTrace", events, name=PID + "/tlc", env={"FULL": "1"}, shards=14, timeout=3000)
     rts = [e for e in events if e["e"] == "rt"]
     keys = set((e["T"], e["n"], e["cm"], e["hm"]) for e in rts)
     res.cov.update({"evaluations": len(events), "distinct_nontrivial": len([k for k in keys if k[1] > 0]),
